@@ -1,7 +1,885 @@
-//! (stub — to be filled in) suite `sudoku`.
-use crate::out::Out;
+//! `sd.*` ops: the specialised Sudoku solver (`selen::solvers::sudoku`) driven through its public
+//! API plus the add-only recorder hook `verif_hooks::sudoku_event` (posted singles and naked-pair
+//! removals), with an independent backtracking solver / validity checker as the C18 oracle.
+//!
+//! Every op carries its own grid (81 integers, row-major):
+//!   sd.cand   <81>            candidate masks after `SudokuSolver::new`
+//!   sd.tech   <k> <81>        `apply_advanced_techniques` k times (flag + events each), masks after
+//!   sd.solve  <81>            all recorded events of `solve()` in program order
+//!   sd.verify <81>            `SudokuSolver::verify_solution`
+//!   sd.result <81> none|<81>  the answer of `solve()`; the model decides whether that answer is
+//!                             allowed by (27 alldiff ∧ domains ∧ posted singles)
+use crate::out::{b, guarded, Out};
+use crate::rng::Rng;
+use selen::prelude::*;
+use selen::solvers::sudoku::SudokuSolver;
+use selen::verif_hooks as vh;
 
-pub fn suite(_out: &mut Out, _seed: u64, _count: u64, _args: &[String]) {}
+type Grid = [[i32; 9]; 9];
+
+// ---------------------------------------------------------------------------------------------
+// independent oracle: validity checker and a bit-mask backtracking solver (own code, no selen)
+// ---------------------------------------------------------------------------------------------
+
+fn box_of(r: usize, c: usize) -> usize {
+    (r / 3) * 3 + c / 3
+}
+
+/// complete, all cells 1..9, every row/column/box a permutation
+fn oracle_valid(g: &Grid) -> bool {
+    let mut rows = [0u16; 9];
+    let mut cols = [0u16; 9];
+    let mut boxs = [0u16; 9];
+    for r in 0..9 {
+        for c in 0..9 {
+            let v = g[r][c];
+            if !(1..=9).contains(&v) {
+                return false;
+            }
+            let bit = 1u16 << v;
+            if rows[r] & bit != 0 || cols[c] & bit != 0 || boxs[box_of(r, c)] & bit != 0 {
+                return false;
+            }
+            rows[r] |= bit;
+            cols[c] |= bit;
+            boxs[box_of(r, c)] |= bit;
+        }
+    }
+    true
+}
+
+fn oracle_agrees(clues: &Grid, s: &Grid) -> bool {
+    (0..9).all(|r| (0..9).all(|c| clues[r][c] == 0 || clues[r][c] == s[r][c]))
+}
+
+struct Bt {
+    g: Grid,
+    rows: [u16; 9],
+    cols: [u16; 9],
+    boxs: [u16; 9],
+    sols: Vec<Grid>,
+    limit: usize,
+    nodes: u64,
+    /// digit order used when branching (randomised for grid generation)
+    order: [i32; 9],
+}
+
+impl Bt {
+    /// `None` if the clues themselves are contradictory / out of range
+    fn new(clues: &Grid, limit: usize, order: [i32; 9]) -> Option<Bt> {
+        let mut b = Bt { g: *clues, rows: [0; 9], cols: [0; 9], boxs: [0; 9], sols: vec![], limit, nodes: 0, order };
+        for r in 0..9 {
+            for c in 0..9 {
+                let v = clues[r][c];
+                if v == 0 {
+                    continue;
+                }
+                if !(1..=9).contains(&v) {
+                    return None;
+                }
+                let bit = 1u16 << v;
+                if b.rows[r] & bit != 0 || b.cols[c] & bit != 0 || b.boxs[box_of(r, c)] & bit != 0 {
+                    return None;
+                }
+                b.rows[r] |= bit;
+                b.cols[c] |= bit;
+                b.boxs[box_of(r, c)] |= bit;
+            }
+        }
+        Some(b)
+    }
+    fn run(&mut self) {
+        if self.sols.len() >= self.limit {
+            return;
+        }
+        self.nodes += 1;
+        // most constrained empty cell
+        let mut best: Option<(usize, usize, u16, u32)> = None;
+        for r in 0..9 {
+            for c in 0..9 {
+                if self.g[r][c] == 0 {
+                    let used = self.rows[r] | self.cols[c] | self.boxs[box_of(r, c)];
+                    let free = !used & 0b11_1111_1110;
+                    let n = free.count_ones();
+                    if n == 0 {
+                        return;
+                    }
+                    if best.map_or(true, |x| n < x.3) {
+                        best = Some((r, c, free, n));
+                    }
+                }
+            }
+        }
+        let Some((r, c, free, _)) = best else {
+            self.sols.push(self.g);
+            return;
+        };
+        for &d in &self.order.clone() {
+            let bit = 1u16 << d;
+            if free & bit == 0 {
+                continue;
+            }
+            self.g[r][c] = d;
+            self.rows[r] |= bit;
+            self.cols[c] |= bit;
+            self.boxs[box_of(r, c)] |= bit;
+            self.run();
+            self.g[r][c] = 0;
+            self.rows[r] &= !bit;
+            self.cols[c] &= !bit;
+            self.boxs[box_of(r, c)] &= !bit;
+            if self.sols.len() >= self.limit {
+                return;
+            }
+        }
+    }
+}
+
+const ASC: [i32; 9] = [1, 2, 3, 4, 5, 6, 7, 8, 9];
+
+/// up to `limit` completions of the clue grid
+fn oracle_solutions(clues: &Grid, limit: usize) -> Vec<Grid> {
+    match Bt::new(clues, limit, ASC) {
+        None => vec![],
+        Some(mut b) => {
+            b.run();
+            b.sols
+        }
+    }
+}
+
+// ---------------------------------------------------------------------------------------------
+// the implementation under test
+// ---------------------------------------------------------------------------------------------
+
+fn grid_arg(g: &Grid) -> String {
+    let mut s = String::with_capacity(200);
+    for r in 0..9 {
+        for c in 0..9 {
+            if !s.is_empty() {
+                s.push(' ');
+            }
+            s.push_str(&g[r][c].to_string());
+        }
+    }
+    s
+}
+
+fn parse_grid(ws: &[&str]) -> Option<Grid> {
+    if ws.len() != 81 {
+        return None;
+    }
+    let mut g = [[0i32; 9]; 9];
+    for (i, w) in ws.iter().enumerate() {
+        g[i / 9][i % 9] = w.parse().ok()?;
+    }
+    Some(g)
+}
+
+fn show_cands(s: &SudokuSolver) -> String {
+    let cs = s.get_candidates();
+    let mut v = Vec::with_capacity(81);
+    for r in 0..9 {
+        for c in 0..9 {
+            let mut m = 0u32;
+            for d in 1..=9 {
+                if cs[r][c].contains(d) {
+                    m |= 1 << (d - 1);
+                }
+            }
+            v.push(m.to_string());
+        }
+    }
+    format!("[{}]", v.join(","))
+}
+
+type Evt = (u8, usize, usize, i32);
+
+fn show_evs(evs: &[Evt]) -> String {
+    let v: Vec<String> = evs.iter().map(|(k, r, c, d)| format!("{k}:{r}:{c}:{d}")).collect();
+    format!("[{}]", v.join(","))
+}
+
+fn op_cand(out: &mut Out, g: &Grid) -> usize {
+    let res = guarded(|| show_cands(&SudokuSolver::new(*g)));
+    out.emit(format!("sd.cand {}", grid_arg(g)), res.map(|s| format!("cands={s}")).unwrap_or_else(|| "panic".into()))
+}
+
+fn op_tech(out: &mut Out, k: usize, g: &Grid) -> usize {
+    let res = guarded(|| {
+        let mut s = SudokuSolver::new(*g);
+        let mut acc = String::new();
+        for _ in 0..k {
+            vh::sudoku_record_start();
+            let p = s.apply_advanced_techniques();
+            let evs = vh::sudoku_record_take();
+            acc.push_str(&format!("p={} ev={} | ", b(p), show_evs(&evs)));
+        }
+        acc.push_str(&format!("cands={}", show_cands(&s)));
+        acc
+    });
+    let _ = vh::sudoku_record_take();
+    out.emit(format!("sd.tech {k} {}", grid_arg(g)), res.unwrap_or_else(|| "panic".into()))
+}
+
+/// outcome of the real `SudokuSolver::new(g).solve()`
+enum Outcome {
+    Panic,
+    /// events, what the general solver answered inside `solve` (hook `sudoku_solve_status`:
+    /// 0 Ok, 1 NoSolution, 2 Timeout, 3 MemoryLimit, 4 ConflictingConstraints, 5 other error),
+    /// the returned grid
+    Done(Vec<Evt>, u8, Option<Grid>),
+}
+
+thread_local! {
+    /// iteration budget of one `solve()`: hook H6 lets the `BUDGET`-th limit check of the search
+    /// find the time-out exceeded (a deterministic, machine-independent stand-in for the default
+    /// 60 s time-out of `Model::default()`); 0 = leave the real clock in charge
+    static BUDGET: std::cell::Cell<usize> = const { std::cell::Cell::new(DEFAULT_BUDGET) };
+}
+const DEFAULT_BUDGET: usize = 3_000;
+
+fn with_budget<T>(f: impl FnOnce() -> T) -> T {
+    let k = BUDGET.with(|c| c.get());
+    if k > 0 {
+        vh::set_fire_at(Some((k, 0)));
+    }
+    let r = f();
+    vh::set_fire_at(None);
+    r
+}
+
+fn run_solve(g: &Grid) -> Outcome {
+    let _ = vh::sudoku_take_status();
+    let r = with_budget(|| {
+        guarded(|| {
+            vh::sudoku_record_start();
+            let s = SudokuSolver::new(*g);
+            let res = s.solve();
+            (vh::sudoku_record_take(), res.solution)
+        })
+    });
+    let status = vh::sudoku_take_status();
+    match r {
+        None => {
+            let _ = vh::sudoku_record_take();
+            Outcome::Panic
+        }
+        Some((evs, sol)) => Outcome::Done(evs, status.unwrap_or(9), sol),
+    }
+}
+
+fn emit_solve(out: &mut Out, g: &Grid, oc: &Outcome) -> usize {
+    let res = match oc {
+        Outcome::Panic => "panic".to_string(),
+        Outcome::Done(evs, _, _) => {
+            let posted = evs.iter().filter(|e| e.0 <= 3).count();
+            format!("n={} posted={} ev={}", evs.len(), posted, show_evs(evs))
+        }
+    };
+    out.emit(format!("sd.solve {}", grid_arg(g)), res)
+}
+
+fn emit_result(out: &mut Out, g: &Grid, oc: &Outcome) -> usize {
+    match oc {
+        Outcome::Panic => out.emit(format!("sd.result {} 9 none", grid_arg(g)), "panic"),
+        // `solve` turns every `Err` of the general solver into `None`; `why` = which `Err`
+        Outcome::Done(_, st, None) => out.emit(format!("sd.result {} {st} none", grid_arg(g)), format!("res=none why={st}")),
+        Outcome::Done(_, st, Some(s)) => {
+            // the implementation claims its answer solves its own constraint set (`member=1`);
+            // `valid` is its own `verify_solution` plus agreement with the clues
+            let valid = guarded(|| SudokuSolver::verify_solution(s)).unwrap_or(false) && oracle_agrees(g, s);
+            out.emit(format!("sd.result {} {st} {}", grid_arg(g), grid_arg(s)), format!("res=some member=1 valid={}", b(valid)))
+        }
+    }
+}
+
+fn op_verify(out: &mut Out, s: &Grid) -> usize {
+    let v = guarded(|| SudokuSolver::verify_solution(s));
+    let line = out.emit(format!("sd.verify {}", grid_arg(s)), v.map(|v| format!("v={}", b(v))).unwrap_or_else(|| "panic".into()));
+    // oracle: verify_solution == independent validity check
+    match v {
+        None => out.fail(line, "C18", "-", "verify_solution panicked"),
+        Some(v) if v != oracle_valid(s) => out.fail(line, "C18", "-", format!("verify_solution={v} but independent checker says {}", !v)),
+        _ => {}
+    }
+    line
+}
+
+/// the same puzzle on the general solver: 81 variables, 27 alldiff
+fn general_solver(g: &Grid) -> Option<Result<Grid, bool>> {
+    with_budget(|| general_solver_inner(g))
+}
+
+/// `Ok(grid)`, `Err(true)` = a resource limit was hit (no verdict), `Err(false)` = no solution
+fn general_solver_inner(g: &Grid) -> Option<Result<Grid, bool>> {
+    guarded(|| {
+        let mut m = Model::default();
+        let mut vars = Vec::new();
+        for r in 0..9 {
+            let mut row = Vec::new();
+            for c in 0..9 {
+                row.push(if g[r][c] != 0 { m.int(g[r][c], g[r][c]) } else { m.int(1, 9) });
+            }
+            vars.push(row);
+        }
+        for r in 0..9 {
+            m.alldiff(&vars[r]);
+        }
+        for c in 0..9 {
+            let col: Vec<VarId> = (0..9).map(|r| vars[r][c]).collect();
+            m.alldiff(&col);
+        }
+        for br in 0..3 {
+            for bc in 0..3 {
+                let mut bx = Vec::new();
+                for r in 0..3 {
+                    for c in 0..3 {
+                        bx.push(vars[br * 3 + r][bc * 3 + c]);
+                    }
+                }
+                m.alldiff(&bx);
+            }
+        }
+        match m.solve() {
+            Ok(sol) => {
+                let mut s = [[0i32; 9]; 9];
+                for r in 0..9 {
+                    for c in 0..9 {
+                        if let Val::ValI(v) = sol[vars[r][c]] {
+                            s[r][c] = v;
+                        }
+                    }
+                }
+                Ok(s)
+            }
+            Err(SolverError::Timeout { .. }) | Err(SolverError::MemoryLimit { .. }) => Err(true),
+            Err(_) => Err(false),
+        }
+    })
+}
+
+fn out_of_range(g: &Grid) -> bool {
+    g.iter().flatten().any(|&v| !(0..=9).contains(&v))
+}
+
+fn units() -> Vec<Vec<(usize, usize)>> {
+    let mut u = Vec::new();
+    for r in 0..9 {
+        u.push((0..9).map(|c| (r, c)).collect());
+    }
+    for c in 0..9 {
+        u.push((0..9).map(|r| (r, c)).collect());
+    }
+    for br in 0..3 {
+        for bc in 0..3 {
+            let mut b = Vec::new();
+            for r in 0..3 {
+                for c in 0..3 {
+                    b.push((br * 3 + r, bc * 3 + c));
+                }
+            }
+            u.push(b);
+        }
+    }
+    u
+}
+
+/// C18 oracle for one solved puzzle. `line` = the `sd.result` line. Returns the outcome label.
+fn oracle_c18(out: &mut Out, line: usize, g: &Grid, oc: &Outcome, with_general: bool) -> &'static str {
+    let sols = oracle_solutions(g, 64);
+    let exists = !sols.is_empty();
+    out.stat(match sols.len() {
+        0 => "completions=0",
+        1 => "completions=1",
+        2..=63 => "completions=2..63",
+        _ => "completions>=64",
+    });
+    // matcher of the known finding: the grid has a clue outside 0..=9 (no completion exists) and
+    // the solver panics (debug profile) or hands back a grid containing that clue (release profile)
+    let tag_range = if out_of_range(g) { "clue-out-of-range" } else { "-" };
+    match oc {
+        Outcome::Panic => {
+            out.stat("outcome=panic");
+            out.fail(line, "C18", tag_range, format!("solve panicked (completion exists: {exists})"));
+            "panic"
+        }
+        Outcome::Done(evs, st, res) => {
+            // matcher of the known finding: the general solver stopped at a resource limit
+            // (`Err(Timeout)` / `Err(MemoryLimit)`) and `solve` reports that as `None`
+            let tag_limit = if *st == 2 || *st == 3 { "limit-as-none" } else { "-" };
+            out.stat(&format!("general-status={st}"));
+            // (a) every posted single holds in every completion (checked on up to 64 of them)
+            for &(k, r, c, d) in evs.iter().filter(|e| e.0 <= 3) {
+                if let Some(s) = sols.iter().find(|s| s[r][c] != d) {
+                    out.fail(line, "C18", "-", format!("posted single kind {k} ({r},{c})=={d} excludes the completion {}", grid_arg(s)));
+                    break;
+                }
+            }
+            match res {
+                Some(s) => {
+                    out.stat("outcome=some");
+                    // (b) returned grid is complete, valid, agrees with every clue
+                    if !oracle_valid(s) {
+                        out.fail(line, "C18", tag_range, format!("returned grid is not a valid sudoku: {}", grid_arg(s)));
+                    } else if !oracle_agrees(g, s) {
+                        out.fail(line, "C18", "-", format!("returned grid contradicts a clue: {}", grid_arg(s)));
+                    } else if !exists {
+                        out.fail(line, "C18", "-", "oracle found no completion but the returned grid is one (oracle bug)");
+                    }
+                }
+                None => {
+                    out.stat("outcome=none");
+                    // (c) None only when no completion exists
+                    if exists {
+                        out.fail(line, "C18", tag_limit, format!("returned None (general solver status {st}) but a completion exists: {}", grid_arg(&sols[0])));
+                    }
+                }
+            }
+            // (d) verdict agrees with the general solver on the same puzzle (81 variables with the
+            // clue domains, 27 alldiff); for clues in range its answer must be a completion too
+            if with_general {
+                match general_solver(g) {
+                    None => out.fail(line, "C18", "-", "general solver panicked"),
+                    Some(Err(true)) => out.stat("general-solver-limit"),
+                    Some(gs) => {
+                        if gs.is_ok() != res.is_some() {
+                            out.fail(line, "C18", tag_limit, format!("verdict differs: specialised {} general {}", res.is_some(), gs.is_ok()));
+                        }
+                        if let Ok(s) = gs {
+                            if !out_of_range(g) && !(oracle_valid(&s) && oracle_agrees(g, &s)) {
+                                out.fail(line, "C18", "-", format!("general solver returned an invalid grid: {}", grid_arg(&s)));
+                            }
+                        }
+                    }
+                }
+            }
+            if res.is_some() { "some" } else { "none" }
+        }
+    }
+}
+
+/// all ops for one clue grid
+fn run_case(out: &mut Out, rng: &mut Rng, g: &Grid, full: bool) -> &'static str {
+    if full || rng.chance(1, 3) {
+        op_cand(out, g);
+    }
+    if full || rng.chance(1, 2) {
+        let k = rng.range(1, 3) as usize;
+        op_tech(out, k, g);
+    }
+    let oc = run_solve(g);
+    emit_solve(out, g, &oc);
+    let line = emit_result(out, g, &oc);
+    let label = oracle_c18(out, line, g, &oc, full || rng.chance(1, 2));
+    if let Outcome::Done(evs, _, res) = &oc {
+        out.stat_n("posted-singles", evs.iter().filter(|e| e.0 <= 3).count() as u64);
+        out.stat_n("pair-removals", evs.iter().filter(|e| e.0 > 3).count() as u64);
+        if evs.iter().any(|e| e.0 > 3) {
+            out.stat("cases-with-pair-removals");
+        }
+        if evs.is_empty() {
+            out.stat("cases-without-events");
+        }
+        if let Some(s) = res {
+            op_verify(out, s);
+            // perturbed copies: swap / overwrite / out-of-range
+            let mut t = *s;
+            let (r, c) = (rng.below(9) as usize, rng.below(9) as usize);
+            match rng.below(4) {
+                0 => t[r][c] = rng.range(1, 9) as i32,
+                1 => t[r][c] = *rng.pick(&[0, 10, -1, 11, i32::MAX, i32::MIN, -9]),
+                2 => {
+                    let c2 = rng.below(9) as usize;
+                    let x = t[r][c];
+                    t[r][c] = t[r][c2];
+                    t[r][c2] = x;
+                }
+                _ => {
+                    let r2 = rng.below(9) as usize;
+                    let x = t[r][c];
+                    t[r][c] = t[r2][c];
+                    t[r2][c] = x;
+                }
+            }
+            op_verify(out, &t);
+        }
+    }
+    label
+}
+
+// ---------------------------------------------------------------------------------------------
+// generators
+// ---------------------------------------------------------------------------------------------
+
+fn shuffled(rng: &mut Rng) -> [i32; 9] {
+    let mut o = ASC;
+    for i in (1..9).rev() {
+        let j = rng.below(i as u64 + 1) as usize;
+        o.swap(i, j);
+    }
+    o
+}
+
+/// a uniformly-ish random solved grid: random first row, randomised branching order
+fn random_solved(rng: &mut Rng) -> Grid {
+    let mut g = [[0i32; 9]; 9];
+    g[0] = shuffled(rng);
+    // a few more random seeds in the last box keep the search shallow but varied
+    let mut bt = Bt::new(&g, 1, shuffled(rng)).unwrap();
+    bt.run();
+    bt.sols[0]
+}
+
+fn cells_shuffled(rng: &mut Rng) -> Vec<(usize, usize)> {
+    let mut v: Vec<(usize, usize)> = (0..81).map(|i| (i / 9, i % 9)).collect();
+    for i in (1..81).rev() {
+        let j = rng.below(i as u64 + 1) as usize;
+        v.swap(i, j);
+    }
+    v
+}
+
+/// keep exactly `k` clues of `s`
+fn keep_clues(rng: &mut Rng, s: &Grid, k: usize) -> Grid {
+    let mut g = [[0i32; 9]; 9];
+    for &(r, c) in cells_shuffled(rng).iter().take(k) {
+        g[r][c] = s[r][c];
+    }
+    g
+}
+
+/// remove clues while the completion stays unique (a locally minimal puzzle, typically 21..27 clues)
+fn minimal_unique(rng: &mut Rng, s: &Grid, stop_at: usize) -> Grid {
+    let mut g = *s;
+    let mut n = 81;
+    for (r, c) in cells_shuffled(rng) {
+        if n <= stop_at {
+            break;
+        }
+        let v = g[r][c];
+        g[r][c] = 0;
+        if oracle_solutions(&g, 2).len() != 1 {
+            g[r][c] = v;
+        } else {
+            n -= 1;
+        }
+    }
+    g
+}
+
+fn parse81(s: &str) -> Grid {
+    let mut g = [[0i32; 9]; 9];
+    for (i, ch) in s.chars().enumerate() {
+        g[i / 9][i % 9] = ch.to_digit(10).unwrap_or(0) as i32;
+    }
+    g
+}
+
+/// validity-preserving symmetry: relabel digits, permute rows within bands / bands / same for
+/// columns, transpose
+fn symmetry(rng: &mut Rng, g: &Grid) -> Grid {
+    let relabel = shuffled(rng);
+    let perm3 = |rng: &mut Rng| {
+        let mut p = [0usize, 1, 2];
+        for i in (1..3).rev() {
+            let j = rng.below(i as u64 + 1) as usize;
+            p.swap(i, j);
+        }
+        p
+    };
+    let mut rows = [0usize; 9];
+    let mut cols = [0usize; 9];
+    for which in 0..2 {
+        let bands = perm3(rng);
+        for b in 0..3 {
+            let inner = perm3(rng);
+            for i in 0..3 {
+                let v = bands[b] * 3 + inner[i];
+                if which == 0 {
+                    rows[b * 3 + i] = v;
+                } else {
+                    cols[b * 3 + i] = v;
+                }
+            }
+        }
+    }
+    let tr = rng.chance(1, 2);
+    let mut o = [[0i32; 9]; 9];
+    for r in 0..9 {
+        for c in 0..9 {
+            let v = if tr { g[cols[c]][rows[r]] } else { g[rows[r]][cols[c]] };
+            o[r][c] = if v == 0 { 0 } else { relabel[(v - 1) as usize] };
+        }
+    }
+    o
+}
+
+/// published puzzles with a unique solution (checked by the oracle when they are used):
+/// two 17-clue puzzles, the example of the crate's documentation, two hard ones
+const KNOWN: [&str; 5] = [
+    "000000010400000000020000000000050407008000300001090000300400200050100000000806000",
+    "000000012000035000000600070700000300000400800100000000000120000080000040050000600",
+    "530070000600195000098000060800060003400803001700020006060000280000419005000080079",
+    "800000000003600000070090200050007000000045700000100030001000068008500010090000400",
+    "100007090030020008009600500005300900010080002600004000300000010040000007007000300",
+];
+
+fn gen_case(rng: &mut Rng, out: &mut Out) -> (Grid, &'static str) {
+    let kind = rng.below(100);
+    let s = random_solved(rng);
+    match kind {
+        0..=11 => {
+            // locally minimal unique puzzles (17..27 clues, in practice 21..27)
+            (minimal_unique(rng, &s, 17), "unique-minimal")
+        }
+        12..=20 => {
+            // unique, stopped early at a random clue count 26..50
+            let stop = rng.range(26, 50) as usize;
+            (minimal_unique(rng, &s, stop), "unique-mid")
+        }
+        21 => {
+            // published hard / 17-clue puzzles under a random symmetry (slow in the real solver:
+            // rare, and the slowest one only in the fixed corpus)
+            if rng.chance(1, 2) {
+                return (minimal_unique(rng, &s, 17), "unique-minimal");
+            }
+            let base = parse81(KNOWN[[0usize, 2, 3, 4][rng.below(4) as usize]]);
+            (symmetry(rng, &base), "known-17-hard")
+        }
+        22..=33 => {
+            // unique, stopped early at a random clue count 26..50
+            let stop = rng.range(26, 50) as usize;
+            (minimal_unique(rng, &s, stop), "unique-mid")
+        }
+        34..=45 => {
+            // plain removal to 17..25 clues (mostly many completions)
+            let k = rng.range(17, 25) as usize;
+            (keep_clues(rng, &s, k), "removal-17-25")
+        }
+        46..=53 => {
+            let k = rng.range(26, 60) as usize;
+            (keep_clues(rng, &s, k), "removal-26-60")
+        }
+        54..=56 => {
+            let k = rng.range(0, 16) as usize;
+            (keep_clues(rng, &s, k), "removal-0-16")
+        }
+        57..=65 => {
+            // nearly full
+            let k = rng.range(76, 81) as usize;
+            (keep_clues(rng, &s, k), "nearly-full")
+        }
+        66..=68 => ([[0; 9]; 9], "empty"),
+        69..=73 => {
+            // clues on a diagonal only (from a solved grid: consistent; random digits: maybe not)
+            let mut g = [[0i32; 9]; 9];
+            let anti = rng.chance(1, 2);
+            let random_digits = rng.chance(1, 2);
+            for i in 0..9 {
+                let c = if anti { 8 - i } else { i };
+                if rng.chance(5, 6) {
+                    g[i][c] = if random_digits { rng.range(1, 9) as i32 } else { s[i][c] };
+                }
+            }
+            (g, "diagonal")
+        }
+        74..=81 => {
+            // contradictory: duplicate digit in a unit of a partial grid
+            let k = rng.range(20, 60) as usize;
+            let mut g = keep_clues(rng, &s, k);
+            let us = units();
+            let u = rng.pick(&us).clone();
+            let given: Vec<(usize, usize)> = u.iter().cloned().filter(|&(r, c)| g[r][c] != 0).collect();
+            let (sr, sc) = if given.is_empty() { u[0] } else { *rng.pick(&given) };
+            let v = s[sr][sc];
+            g[sr][sc] = v;
+            let others: Vec<(usize, usize)> = u.iter().cloned().filter(|&p| p != (sr, sc)).collect();
+            let (tr, tc) = *rng.pick(&others);
+            g[tr][tc] = v;
+            (g, "dup-in-unit")
+        }
+        82..=88 => {
+            // two equal clues inside a FULLY GIVEN unit (rest of the grid partially / fully given)
+            let k = *rng.pick(&[0usize, 10, 30, 60, 81]);
+            let mut g = keep_clues(rng, &s, k);
+            let us = units();
+            let u = rng.pick(&us).clone();
+            for &(r, c) in &u {
+                g[r][c] = s[r][c];
+            }
+            let a = rng.below(9) as usize;
+            let mut bq = rng.below(9) as usize;
+            if bq == a {
+                bq = (a + 1) % 9;
+            }
+            g[u[a].0][u[a].1] = s[u[bq].0][u[bq].1];
+            (g, "dup-in-full-unit")
+        }
+        89..=93 => {
+            // deep contradiction: a unique puzzle with one clue changed to another value that
+            // has no direct conflict (if there is one)
+            let stop = rng.range(24, 40) as usize;
+            let mut g = minimal_unique(rng, &s, stop);
+            let clues: Vec<(usize, usize)> = (0..81).map(|i| (i / 9, i % 9)).filter(|&(r, c)| g[r][c] != 0).collect();
+            let (r, c) = *rng.pick(&clues);
+            let old = g[r][c];
+            g[r][c] = 0;
+            let free: Vec<i32> = (1..=9)
+                .filter(|&d| d != old && Bt::new(&{ let mut h = g; h[r][c] = d; h }, 1, ASC).is_some())
+                .collect();
+            g[r][c] = if free.is_empty() { old } else { *rng.pick(&free) };
+            (g, "one-clue-changed")
+        }
+        94..=96 => {
+            // a digit outside 1..9
+            let k = rng.range(0, 40) as usize;
+            let mut g = keep_clues(rng, &s, k);
+            let (r, c) = (rng.below(9) as usize, rng.below(9) as usize);
+            g[r][c] = *rng.pick(&[10, -1, 11, 16, 17, 100, -5, i32::MAX, i32::MIN]);
+            (g, "out-of-range")
+        }
+        _ => {
+            // malformed stream: independent random cells
+            let dens = rng.range(5, 60) as u64;
+            let mut g = [[0i32; 9]; 9];
+            for r in 0..9 {
+                for c in 0..9 {
+                    if rng.chance(dens, 100) {
+                        g[r][c] = rng.range(1, 9) as i32;
+                    }
+                }
+            }
+            let _ = out;
+            (g, "random-cells")
+        }
+    }
+}
+
+/// `--exh`: the complete neighbourhood of one random solved grid: every single blank (81), every
+/// double blank (3240), every single-cell corruption of the full grid (648: a duplicate inside
+/// three FULLY GIVEN units), every blank + corruption of a cell of the same row (81*8*8 would be
+/// too many: only the cells of the first row, 9*8*8 = 576)
+fn exhaustive(out: &mut Out, seed: u64) {
+    let mut rng = Rng::new(seed ^ 0x5D0C_18E).fork();
+    let s = random_solved(&mut rng);
+    let mut n = 0u64;
+    let mut one = |out: &mut Out, g: &Grid, kind: &str| {
+        out.case(&format!("sx{n}"));
+        n += 1;
+        let oc = run_solve(g);
+        emit_solve(out, g, &oc);
+        let line = emit_result(out, g, &oc);
+        let label = oracle_c18(out, line, g, &oc, true);
+        out.stat(&format!("kind={kind}/{label}"));
+    };
+    for i in 0..81 {
+        let mut g = s;
+        g[i / 9][i % 9] = 0;
+        one(out, &g, "exh-blank1");
+        for j in i + 1..81 {
+            let mut h = g;
+            h[j / 9][j % 9] = 0;
+            one(out, &h, "exh-blank2");
+        }
+        for d in 1..=9 {
+            if d != s[i / 9][i % 9] {
+                let mut h = s;
+                h[i / 9][i % 9] = d;
+                one(out, &h, "exh-corrupt1");
+            }
+        }
+    }
+    for c in 0..9 {
+        for c2 in 0..9 {
+            if c2 == c {
+                continue;
+            }
+            for d in 1..=9 {
+                if d != s[0][c2] {
+                    let mut h = s;
+                    h[0][c] = 0;
+                    h[0][c2] = d;
+                    one(out, &h, "exh-blank1-corrupt1");
+                }
+            }
+        }
+    }
+}
+
+pub fn suite(out: &mut Out, seed: u64, count: u64, args: &[String]) {
+    if args.iter().any(|a| a == "--exh") {
+        return exhaustive(out, seed);
+    }
+    let full = args.iter().any(|a| a == "--full");
+    let user_budget: Option<usize> = args.iter().position(|a| a == "--budget").and_then(|i| args.get(i + 1)).and_then(|v| v.parse().ok());
+    let mut root = Rng::new(seed ^ 0x5D0C_18);
+    // fixed corpus first
+    let mut fixed: Vec<(Grid, &'static str)> = vec![([[0; 9]; 9], "empty")];
+    for (i, k) in KNOWN.iter().enumerate() {
+        // KNOWN[1] keeps the real solver busy for several seconds: only with `--full`
+        if i != 1 || full {
+            fixed.push((parse81(k), "known-17-hard"));
+        }
+    }
+    for i in 0..count {
+        let mut rng = root.fork();
+        out.case(&format!("sd{i}"));
+        let (g, kind) = if (i as usize) < fixed.len() { fixed[i as usize] } else { gen_case(&mut rng, out) };
+        out.stat(&format!("kind={kind}"));
+        let clues = g.iter().flatten().filter(|&&v| v != 0).count();
+        out.stat(&format!(
+            "clues={}",
+            match clues {
+                0 => "0",
+                1..=16 => "1-16",
+                17..=25 => "17-25",
+                26..=40 => "26-40",
+                41..=75 => "41-75",
+                _ => "76-81",
+            }
+        ));
+        // the published hard puzzles are meant to be solved to the end: larger budget
+        BUDGET.with(|c| c.set(user_budget.unwrap_or(if kind == "known-17-hard" { 10 * DEFAULT_BUDGET } else { DEFAULT_BUDGET })));
+        let label = run_case(out, &mut rng, &g, full);
+        BUDGET.with(|c| c.set(DEFAULT_BUDGET));
+        out.stat(&format!("kind={kind}/{label}"));
+    }
+}
 
 /// replay of one protocol line of this suite inside the current case
-pub fn replay_line(_out: &mut Out, _line: &str) {}
+pub fn replay_line(out: &mut Out, line: &str) {
+    let ws: Vec<&str> = line.split_whitespace().collect();
+    match ws[0] {
+        "sd.cand" => {
+            if let Some(g) = parse_grid(&ws[1..]) {
+                op_cand(out, &g);
+            }
+        }
+        "sd.tech" => {
+            if let (Some(k), Some(g)) = (ws.get(1).and_then(|k| k.parse().ok()), parse_grid(ws.get(2..).unwrap_or(&[]))) {
+                op_tech(out, k, &g);
+            }
+        }
+        "sd.solve" => {
+            if let Some(g) = parse_grid(&ws[1..]) {
+                let oc = run_solve(&g);
+                emit_solve(out, &g, &oc);
+            }
+        }
+        "sd.verify" => {
+            if let Some(g) = parse_grid(&ws[1..]) {
+                op_verify(out, &g);
+            }
+        }
+        "sd.result" => {
+            // the recorded answer is NOT reused: the puzzle is solved again
+            if let Some(g) = ws.get(1..82).and_then(parse_grid) {
+                let oc = run_solve(&g);
+                let l = emit_result(out, &g, &oc);
+                let _ = oracle_c18(out, l, &g, &oc, true);
+            }
+        }
+        _ => {}
+    }
+}
